@@ -10,6 +10,6 @@ CONSTANTS
   ChunkBlocks <- MCChunkBlocks
 SPECIFICATION Spec
 VIEW View
-INVARIANTS TypeOK NoInternalError C01_RebuildEq C02_RefEq C04_Positions C04_Last C05_TarShape C07_Idempotent C07_SecondPassNoop C13_Tree
+INVARIANTS TypeOK NoInternalError C01_RebuildEq C02_RefEq C04_Positions C04_Last C05_TarShape C06_Prefix C07_Idempotent C07_SecondPassNoop C13_Tree
 PROPERTIES C02_FailNoChange C05_AppendOnly C12_Subtree C12_NoRenameIntoSelf
 CHECK_DEADLOCK FALSE
